@@ -144,6 +144,14 @@ def handle (req : Json) : Except String Json := do
   | "sem" =>
     let t := openmlSem (← bool (← field req "hasSem")) (← bool (← field req "cached1")) (← bool (← field req "cached2"))
     pure (obj [("acquires", ofNat t.acquires), ("releases", ofNat t.releases)])
+  | "semrun" =>
+    let p ← nat (← field req "permits")
+    let rs ← (← arr (← field req "reads")).mapM (fun j => do
+      let l ← arr j
+      match l with
+      | [a, b, c] => pure ((← bool a), (← bool b), (← bool c))
+      | _ => throw "bad read")
+    pure (obj [("permits", ofOpt ofNat (semRun p rs))])
   | _ => throw s!"unknown op {op}"
 
 end Coba.C19.Driver
